@@ -292,7 +292,7 @@ for _p in ("C01", "C02", "C04", "C05", "C07", "C14", "C18"):
 
 # the real server under modulator latency: handlers suspended at their await points while other requests, socket closes and
 # re-identifications proceed; auditor at quiescence (oracle-only, see lib/suite_oracle.py and harness/src/lat_suite.rs)
-LAT_SUITE = {"kind": "oracle", "nvh_suite": "lat", "cases": {"quick": 1500, "thorough": 40000}}
+LAT_SUITE = {"kind": "oracle", "nvh_suite": "lat", "cases": {"quick": 1500, "thorough": 15000}}
 for _p in ("C01", "C05", "C12", "C14", "C07"):
     PROPS[_p]["suites"]["lat"] = dict(LAT_SUITE, oracle_tags=[_p])
 
